@@ -67,7 +67,8 @@ def check(run):
                     draw = info
                     run.ok("ORDER", fq, f"chain = uniform permutation of self.feature_names via {draw[2]}")
                 else:
-                    if not any(t == FEATURE_NAMES or t[0] == "draw" for t in ir.subterms(lp.iter)):
+                    if not any(t == FEATURE_NAMES or t[0] == "draw" for t in ir.subterms(lp.iter)) and \
+                            any(t[0] == "param" for t in ir.subterms(lp.iter)):
                         # the innermost loop around the loss calls walks neither the feature names nor anything drawn: the
                         # walk along the feature order is not written as a loop here (a lazily consumed generator, ...)
                         raise AnalysisError(f"{fq}: the loop around the loss evaluations runs over {ir.show_nl(lp.iter)[:80]}; "
